@@ -3,6 +3,7 @@ package rules
 
 import (
 	"fmt"
+	"os"
 	"strings"
 
 	ssa "xvc/xssa"
@@ -63,6 +64,9 @@ func Contradictions(c *q.Ctx) {
 			}
 		}
 		return false
+	}
+	if os.Getenv("XVC_SWEEP_ALL") != "" { // authoring aid: sweep the whole module (precision of the sweeps)
+		in = func(path string) bool { return strings.Contains(path, "xuperchain/xupercore") }
 	}
 	sites := q.ErrValueTests(c.P, in)
 	for _, s := range sites {
